@@ -114,6 +114,25 @@ class Model:
         self._cand[key] = out
         return out
 
+    def collaborator_attrs(self, ci: ClassInfo) -> Dict[str, List[ClassInfo]]:
+        """{attribute: candidate classes} for every `self.<attr> = ...` of the __init__ chain that resolves to classes."""
+        names = []
+        for c in self.tree.mro(ci):
+            init = c.methods.get("__init__")
+            if init is None:
+                continue
+            for st in ast.walk(init.node):
+                tgs = st.targets if isinstance(st, ast.Assign) else ([st.target] if isinstance(st, ast.AnnAssign) and st.value is not None else [])
+                for tg in tgs:
+                    if isinstance(tg, ast.Attribute) and isinstance(tg.value, ast.Name) and tg.value.id == "self" and tg.attr not in names:
+                        names.append(tg.attr)
+        out = {}
+        for n in names:
+            c = self.candidates(ci, n)
+            if c:
+                out[n] = c
+        return out
+
     def init_assignments(self, ci: ClassInfo, attr: str):
         """[(FuncInfo __init__, value expr)] for `self.<attr> = value` in the __init__ chain."""
         out = []
